@@ -195,7 +195,8 @@ def proof_status(prop):
         return {'exists': False, 'theorems': [], 'ok': False, 'assumptions': {}, 'log': ''}
     src = open(f).read()
     theorems = re.findall(r'^(?:Theorem|Corollary)\s+([A-Za-z0-9_\']+)', src, re.M)
-    rc, o, e = sh('timeout 900 coqc -R . Syz Properties/%s.v' % prop, cwd=COQ, timeout=1000)
+    with Lock('build'):      # never while another check of the same tree rebuilds the generated tables and their dependents
+        rc, o, e = sh('timeout 900 coqc -R . Syz Properties/%s.v' % prop, cwd=COQ, timeout=1000)
     log = (o + e).decode(errors='replace')
     assumptions = {}
     # Print Assumptions output: either "Closed under the global context" or "Axioms:" followed by lines
